@@ -41,8 +41,9 @@ def shards(tier):
     return 14
 
 
-def encrypt_once(keysdir, plaintext, kid=7):
-    ec, tag, info, dg, ln = X.plugin_encrypt(plaintext, KNAME, kid, keysdir, "sha-256")
+def encrypt_once(keysdir, plaintext, kid=7, reuse=False):
+    """reuse=True: ONE encryptor object (and whatever it keeps: KMS backend, pools, counters) serves all calls"""
+    ec, tag, info, dg, ln = X.plugin_encrypt(plaintext, KNAME, kid, keysdir, "sha-256", reuse=reuse)
     res = X.parse_info(info)
     return res, tag + ec
 
@@ -62,13 +63,15 @@ def record(rec, kind, res, tag_ct, plaintext, events):
 
 
 def hist_loop(rec, keysdir, n, events, kind="loop-same-plaintext"):
+    """first half: a fresh encryptor object per call; second half: one encryptor object reused for every call"""
     for i in range(n):
         if rec.out_of_time():
             rec.count("stopped_by_wall_clock_cap")
             break
         pt = PT if i % 10 else PT + bytes([i % 251])
-        res, tc = encrypt_once(keysdir, pt)
-        record(rec, kind, res, tc, pt, events)
+        reuse = i >= n // 2
+        res, tc = encrypt_once(keysdir, pt, reuse=reuse)
+        record(rec, kind + ("-one-encryptor-object" if reuse else ""), res, tc, pt, events)
 
 
 def hist_cli(rec, keysdir, n, events):
@@ -296,7 +299,8 @@ def finish(merged, tier, seed):
             "case": {"kind": "history", "reused_ivs": list(reused)[:5]}, "observed": None, "expected": None,
             "shard": -1})
     cnt = merged["counters"]
-    for k in ("events:loop-same-plaintext", "events:separate-cli-invocations", "events:fork-child",
+    for k in ("events:loop-same-plaintext", "events:loop-same-plaintext-one-encryptor-object",
+              "events:separate-cli-invocations", "events:fork-child",
               "events:frozen-clock-and-pid", "events:rebuild-into-same-directory",
               "events:environment:reproducible-build", "events:environment-cli:reproducible-build"):
         if cnt.get(k, 0) < 10:
